@@ -120,6 +120,14 @@ func (ex *Exec) assertTerm(t *sym.Term) {
 	ex.z3.Send("(assert " + ref + ")\n")
 }
 
+// SampleHook, when set (engine self-test), receives every SampleEvery-th
+// query of every executor as a standalone script together with the verdict
+// of the incremental solver. It must be safe for concurrent use.
+var (
+	SampleHook  func(script string, r solver.Result)
+	SampleEvery = 1
+)
+
 // checkWith decides PC ∧ t. On sat the model is returned.
 func (ex *Exec) checkWith(t *sym.Term) (solver.Result, *sym.Model) {
 	ex.FeasQueries++
@@ -141,6 +149,10 @@ func (ex *Exec) checkWith(t *sym.Term) (solver.Result, *sym.Model) {
 	ex.z3.Pop(1)
 	if err != nil {
 		ex.solverFail("feasibility query", err)
+	}
+	if err == nil && r != solver.Unknown && SampleHook != nil && ex.FeasQueries%int64(SampleEvery) == 0 {
+		script, _ := ex.standalone(t)
+		SampleHook(script, r)
 	}
 	if r == solver.Unknown && ex.ArithFallback {
 		// decimal / index arithmetic that bit-blasting does not finish: one-shot
